@@ -126,12 +126,6 @@ def _check_store(store, model, probe_p, obs):
                 obs.check(_close(stats["avg"], R.ref_mean(vals), scale), "stats/mean", f"{tag}: mean {stats['avg']} != {float(R.ref_mean(vals))}")
                 if st_type != ST.Normal:
                     continue
-                # default sample type of get_stats is Normal as well
-                obs.check(
-                    store.get_stats(metric, task=name, operation_type=op_type) == stats,
-                    "stats/default-sample-type",
-                    f"{tag}: get_stats without sample type differs from the normal-only statistics",
-                )
                 s = sorted(vals)
                 asked = sorted({float(p) for p in R.ref_percentile_set(len(vals))} | {0.0, 50.0, float(probe_p)})
                 asked = [int(p) if p == int(p) else p for p in asked]
